@@ -1,1 +1,22 @@
-fn main() { println!("kvharness"); }
+//! kvharness: runs the real kanata crates (built from /repo's working tree) on case files and
+//! prints canonical traces that are compared with the extracted Coq model.
+mod cases;
+mod dump;
+mod keys;
+mod lsim;
+
+fn main() {
+    let args: Vec<String> = std::env::args().collect();
+    if args.len() < 2 {
+        eprintln!("usage: kvharness <keys|lsim> [args]");
+        std::process::exit(2);
+    }
+    match args[1].as_str() {
+        "keys" => keys::run(&args[2..]),
+        "lsim" => lsim::run(&args[2..]),
+        other => {
+            eprintln!("unknown subcommand {other}");
+            std::process::exit(2);
+        }
+    }
+}
